@@ -25,6 +25,11 @@ def obligations(tier):
     # the Hexital's own timeframe coarser than a member's: the member's candle list is LONGER than the base list
     for kind, name, kw, fields in (SPECS[1], SPECS[2], SPECS[9]):
         obs.append(Ob(f"{spec_name((kind, name, kw))}/hexital-T4-member-T2/n=9", dict(spec=[kind, name, kw], fields=fields, tf="T2", n=9, hextf="T4"), CFG, weight=30, budget_s=900, max_paths=100000))
+    # members that were built and calculated on other candles before being handed to the Hexital
+    for kind, name, kw, fields in (SPECS[1], SPECS[2], SPECS[7]):
+        for tf in (None, "T2"):
+            n = 5 if tf is None else 8
+            obs.append(Ob(f"{spec_name((kind, name, kw))}/tf={tf}/member pre-attached to other candles/n={n}", dict(spec=[kind, name, kw], fields=fields, tf=tf, n=n, preattached=True), CFG, weight=n * 3, budget_s=900, max_paths=100000))
     # a member without a timeframe of its own inside a Hexital that collapses to T2, next to a member that explicitly asks for
     # that very timeframe (two candle lists with the same timeframe exist side by side)
     for kind, name, kw, fields in (SPECS[1], SPECS[2]):
@@ -139,6 +144,12 @@ def run(ctx, P):
     cs = mk_candles(ctx, n)
     extra = dict(timeframe=tf) if tf else {}
     ind = build_any(spec, **extra)
+    if P.get("preattached"):
+        # the member is an Indicator object that already lives on OTHER candles (built and calculated there) when it is
+        # handed to the Hexital: from then on it belongs to the Hexital's candles
+        other = mk_candles(ctx, n + 3, prefix="other")
+        ind = build_any(spec, candles=other, **extra)
+        ind.calculate()
     if P.get("hextf"):
         partner = build("EMA", dict(period=3), **({"timeframe": P["partner_tf"]} if P.get("partner_tf") else {}))
         hx = Hexital("hx", [], [ind, partner] if not P.get("partner_first") else [partner, ind], timeframe=P["hextf"])
